@@ -196,7 +196,7 @@ def eq_class(tok):
 class World:
     """The pool built from the REAL classes."""
 
-    def __init__(self, classes, objects, validators):
+    def __init__(self, classes, objects, validators, falsy=None):
         from traits.api import HasTraits, Instance, DelegatesTo, PrototypedFrom, TraitType
         from traits.constants import ComparisonMode
         self.classes, self.env = classes, Env(validators)
@@ -217,6 +217,12 @@ class World:
         self.pyclasses = []
         for i, c in enumerate(classes):
             ns = {} if c.base is not None else {"d": Instance(HasTraits)}
+            # a share of the cases runs on objects that are alive but FALSY (nothing in the statement depends on
+            # the truth value of a delegator or delegate; catches `if not obj:` written for `if obj is None:`)
+            if c.base is None and falsy == "bool":
+                ns["__bool__"] = lambda self: False
+            elif c.base is None and falsy == "len":
+                ns["__len__"] = lambda self: 0
             if c.own_pfx is not None:
                 ns["__prefix__"] = c.own_pfx
             for a in c.own_attrs:
@@ -325,6 +331,12 @@ def show_events(evs):
     except TypeError:
         evs = sorted(evs, key=lambda e: (e[0], e[1], str(e[2]), str(e[3])))
     return ",".join("%d.%s:%s>%s" % e for e in evs)
+
+
+def falsy_mode(case):
+    """Replay-stable switch: a quarter of the cases each with __bool__ -> False / __len__ -> 0 classes."""
+    import zlib
+    return {2: "bool", 3: "len"}.get(zlib.crc32(case.lstrip("#").encode()) % 4)
 
 
 def would_cycle(deleg, o, t):
